@@ -606,6 +606,72 @@ class AnswerMonitor : public Monitor {
   }
 };
 
+
+// ---------------------------------------------------------------------------------------------
+// C04 (fault sequences): every request handed over completes exactly once (or is re-queued on a
+// restart), lands where its waiter can find it, and is not referenced by the handler afterwards.
+class CompletionMonitor : public Monitor {
+ public:
+  CompletionMonitor(VSink* s, World* world) : sink(s), w(world), inflight(world->sc.reqs.size(), 0), completions(world->sc.reqs.size(), 0) {}
+  VSink* sink;
+  World* w;
+  std::vector<int> inflight, completions;
+  bool failed = false;
+  void fail(const std::string& sig, const std::string& d) { if (!failed) sink->add("C04/" + sig, d); failed = true; }
+  std::string rq(int r) const { return "request #" + std::to_string(r) + " (" + ref::hex(w->sc.reqs[r].master) + ", " + (w->sc.reqs[r].kind == 1 ? "self-deleting" : "waited") + (w->sc.reqs[r].restarts ? ", restarting" : "") + ")"; }
+  void onEnqueue(int r) override { inflight[r]++; }
+  void onNotify(int r, int result, const Bytes&, bool restart) override {
+    if (failed) return;
+    if (inflight[r] <= 0) { fail("completed-twice", rq(r) + " was notified (result " + std::to_string(result) + ") although it was not in flight"); return; }
+    if (result == 1 || result == 2) { fail("indefinite-result", rq(r) + " completed with the non-result " + std::to_string(result)); return; }
+    if (!restart) { inflight[r]--; completions[r]++; }
+  }
+  bool inQueue(Queue<BusRequest*>& q, BusRequest* r, int* count = nullptr) {
+    int n = 0;
+    pthread_mutex_lock(&q.m_mutex);
+    for (BusRequest* x : q.m_queue) if (x == r) n++;
+    pthread_mutex_unlock(&q.m_mutex);
+    if (count) *count = n;
+    return n > 0;
+  }
+  void onQuiescent(bool) override {
+    if (failed || w->h == nullptr) return;
+    for (size_t i = 0; i < inflight.size(); i++) {
+      TReq* r = w->reqObj[i];
+      bool waited = w->sc.reqs[i].kind == 0;
+      if (w->reqState[i] == 2) {  // completed
+        if (r != nullptr) {
+          if (w->h->m_currentRequest == r) fail("touched-after-completion/current", rq((int)i) + " is still the handler's current request after completion");
+          if (inQueue(w->h->m_nextRequests, r)) fail("touched-after-completion/queued", rq((int)i) + " is in the send queue after completion");
+          int n = 0;
+          inQueue(w->h->m_finishedRequests, r, &n);
+          if (waited && !collected(i) && n != 1) fail("waiter-not-released", rq((int)i) + " completed but is " + std::to_string(n) + " times in the finished queue");
+          if (!waited && n != 0) fail("self-deleting-in-finished-queue", rq((int)i) + " was put into the finished queue");
+        }
+      } else if (w->reqState[i] == 1 && r != nullptr) {
+        if (inQueue(w->h->m_finishedRequests, r)) fail("released-before-completion", rq((int)i) + " is in the finished queue without having been notified");
+        int n = 0;
+        inQueue(w->h->m_nextRequests, r, &n);
+        int cur = w->h->m_currentRequest == r ? 1 : 0;
+        if (n + cur != 1) fail(n + cur == 0 ? "lost-request" : "duplicated-request", rq((int)i) + " is in flight but referenced " + std::to_string(n) + " times by the send queue and " + std::to_string(cur) + " times as current request");
+      }
+    }
+  }
+  bool collected(size_t i) { return i < w->collected.size() && w->collected[i]; }
+  void onEnd() override {
+    if (failed) return;
+    onQuiescent(false);
+    if (!w->sc.drainAtEnd) return;
+    for (size_t i = 0; i < inflight.size(); i++) {
+      if (inflight[i] > 0) { fail("never-completed", rq((int)i) + " was never completed although the signal was lost at the end"); return; }
+    }
+  }
+  void fingerprint(std::string* o) const override {
+    for (size_t i = 0; i < inflight.size(); i++) { o->push_back((char)inflight[i]); o->push_back((char)(completions[i] > 3 ? 3 : completions[i])); }
+    o->push_back((char)failed);
+  }
+};
+
 }  // namespace bw
 
 #endif  // VERIF_BUSMON_H_
